@@ -3,11 +3,11 @@
 // Contracts for deductive verification (read by /verif/govc). Comment-only: this file adds no code.
 package keeper
 
-//@ store ExpiredShard kv=sao/ExpiredShard/value/ key=sao_ExpiredShardKey val=github.com/SaoNetwork/sao/x/sao/types.ExpiredShard
+//@ store ExpiredShard kv=sao/ExpiredShard/value/ key=sao_ExpiredShardKey val=github.com/SaoNetwork/sao/x/sao/types.ExpiredShard keyfield=Height
 //@ accessor get (Keeper) GetExpiredShard ExpiredShard(height)
 //@ accessor set (Keeper) SetExpiredShard ExpiredShard(expiredShard.Height) expiredShard
 //@ accessor del (Keeper) RemoveExpiredShard ExpiredShard(height)
-//@ store TimeoutOrder kv=sao/TimeoutOrder/value/ key=sao_TimeoutOrderKey val=github.com/SaoNetwork/sao/x/sao/types.TimeoutOrder
+//@ store TimeoutOrder kv=sao/TimeoutOrder/value/ key=sao_TimeoutOrderKey val=github.com/SaoNetwork/sao/x/sao/types.TimeoutOrder keyfield=Height
 //@ accessor get (Keeper) GetTimeoutOrder TimeoutOrder(height)
 //@ accessor set (Keeper) SetTimeoutOrder TimeoutOrder(timeoutOrder.Height) timeoutOrder
 //@ accessor del (Keeper) RemoveTimeoutOrder TimeoutOrder(height)
@@ -283,3 +283,31 @@ package keeper
 //@   loop L3 invariant -1 <= rangeindex && rangeindex < len(sps) && len(spCreators) == rangeindex + 1
 //@   loop L3 invariant forall j int :: 0 <= j && j <= rangeindex ==> spCreators[j] == sps[j].Creator
 //@   loop L4 invariant -1 <= rangeindex && rangeindex < len(order.Shards)
+
+// Ready: the gateway of a pending order hands it to providers: one waiting shard per chosen provider, first timeout check scheduled.
+//@ func (msgServer) Ready(goCtx, msg) (resp, err)
+//@   requires msg != nil
+//@   requires forall c string :: has(Node, c) ==> Node[c].Creator == c
+//@   requires forall k bytes :: rawhas(Node, k) ==> k == keyof(Node, rawget(Node, k).Creator)
+//@   requires forall c string :: has(Pledge, c) ==> i64(Pledge[c].TotalStorage - Pledge[c].UsedStorage) == Pledge[c].TotalStorage - Pledge[c].UsedStorage
+//@   requires forall i int :: 0 <= i && i <= MaxUint64 && has(Order, i) ==> Order[i].Id == i && len(Order[i].Shards) < 2147483648
+//@   requires [C16.inv.shard] forall i int :: 0 <= i && i <= MaxUint64 && has(Shard, i) ==> Shard[i].Id == i && i < effShardCount(get(ShardCount))
+//@   requires effShardCount(get(ShardCount)) <= MaxUint64 - 4294967296
+//@   requires forall h int :: 0 <= h && h <= MaxUint64 && has(TimeoutOrder, h) ==> TimeoutOrder[h].Height == h
+//@   modifies *
+//@   ensures [C10.ready.actor] err == nil ==> msg.Provider == old(Order[msg.OrderId].Provider)
+//@       && actsFor(msg.Creator, msg.Provider, old(has(Node, msg.Provider)), old(Node[msg.Provider]))
+//@   ensures [C12.ready.pending] err == nil ==> old(has(Order, msg.OrderId)) && old(Order[msg.OrderId].Status) == OrderPending
+//@   ensures [C12.ready.sched] err == nil ==> has(TimeoutOrder, u64(H + old(Order[msg.OrderId].Timeout)))
+//@       && contains(TimeoutOrder[u64(H + old(Order[msg.OrderId].Timeout))].OrderList, msg.OrderId)
+//@   ensures [C15.ready.replicas] err == nil ==> has(Order, msg.OrderId) && len(Order[msg.OrderId].Shards) == len(old(Order[msg.OrderId].Shards)) + old(Order[msg.OrderId].Replica)
+//@       && old(Order[msg.OrderId].Replica) >= 1 && Order[msg.OrderId].Status == OrderDataReady
+//@   ensures [C13.ready.shards] err == nil ==> forall j int :: len(old(Order[msg.OrderId].Shards)) <= j && j < len(Order[msg.OrderId].Shards) ==> has(Shard, Order[msg.OrderId].Shards[j])
+//@       && Shard[Order[msg.OrderId].Shards[j]].OrderId == msg.OrderId && Shard[Order[msg.OrderId].Shards[j]].Status == ShardWaiting
+//@       && !old(has(Shard, now(Order[msg.OrderId].Shards[j])))
+//@   ensures [C13.ready.keep] err == nil ==> forall j int :: 0 <= j && j < len(old(Order[msg.OrderId].Shards)) ==> Order[msg.OrderId].Shards[j] == old(Order[msg.OrderId].Shards)[j]
+//@   ensures [C10.ready.frame] forall i int :: 0 <= i && i <= MaxUint64 && i != msg.OrderId ==> Order[i] == old(Order[i]) && (has(Order, i) <==> old(has(Order, i)))
+//@   loop L1 invariant -1 <= rangeindex
+//@   loop L1 invariant isProvider ==> contains(provider.TxAddresses, msg0.Creator)
+//@   loop L2 invariant -1 <= rangeindex && rangeindex < len(sps) && len(spAddresses) == rangeindex + 1
+//@   loop L3 invariant -1 <= rangeindex && rangeindex < len(order.Shards)
